@@ -232,6 +232,25 @@ def p_events(recs):
     return out
 
 
+def overtakes(info):
+    """The refused event is a grant (AcqRet) to a request that was issued after another thread's request had already parked and
+    that request is still waiting: first-come-first-served is broken whatever else is."""
+    nx = info.get("next") or {}
+    if nx.get("e") != "AcqRet":
+        return False
+    t = nx.get("t")
+    parked_at, called_at = {}, {}
+    for i, ev in enumerate(info["events"][:info["matched"]]):
+        if ev["e"] == "AcqCall":
+            called_at[ev["t"]] = i
+            parked_at.pop(ev["t"], None)
+        elif ev["e"] == "Parked":
+            parked_at.setdefault(ev["t"], i)   # a request may park again after a wake-up that did not admit it: the first time counts
+        elif ev["e"] == "AcqRet":
+            parked_at.pop(ev["t"], None)
+    return any(u != t and pi < called_at.get(t, -1) for u, pi in parked_at.items())
+
+
 def last_event(info):
     return info["next"]["e"] if info.get("next") else None
 
@@ -341,8 +360,8 @@ def check(pid, tier, seed):
             hacc, hrej, st2 = val("hold", list(rej))
             tstats.append(st2)
             for x, info in rej.items():
-                if x in hrej or last_event(info) == "Crash":
-                    continue   # attributed to C01
+                if last_event(info) == "Crash" or (x in hrej and not overtakes(info)):
+                    continue   # attributed to C01 (unless the refused grant ALSO passes a request that was parked before it was issued)
                 # a Deadlock leaves a parked request that is never granted: that request is starved, which C03 rules out
                 # as well ("neither readers nor writers can be starved"), so C02 and C03 both own it
                 verdict.violation(sig_of("lock", info), {"mode": "lazy", "matched": info["matched"], "next": info["next"]},
